@@ -158,7 +158,7 @@ func runChild(dir, planPath string, inc int, goMaxProcs int) (*IncResult, error)
 		"SIM_PLAN="+planPath, fmt.Sprintf("SIM_INC=%d", inc), "SIM_JOURNAL="+jpath,
 		fmt.Sprintf("GOMAXPROCS=%d", goMaxProcs), "GOTRACEBACK=single", "TMPDIR="+dir,
 	)
-	if os.Getenv("VERIF_DET_DUMP") != "" {
+	if os.Getenv("VERIF_DET_DUMP") != "" && os.Getenv("VERIF_DET_NOTRACE") == "" {
 		cmd.Env = append(cmd.Env, "SIM_TRACE=1")
 	}
 	var stderr bytes.Buffer
